@@ -246,7 +246,8 @@ DestroyObj(Sx, r) ==
        S0 == [S EXCEPT !.heap[r].alive = FALSE]
        \* a destructor may run while a `return` is propagating (scope exit): it runs as ordinary code
        S1 == RunDtors([S0 EXCEPT !.sig = IF S0.sig = "ret" THEN "ok" ELSE S0.sig], r, S0.heap[r].cls)
-       S2 == [S1 EXCEPT !.sig = IF S1.sig = "ok" THEN S0.sig ELSE S1.sig]
+       \* the pending return (signal and value) survives whatever the destructors call
+       S2 == [S1 EXCEPT !.sig = IF S1.sig = "ok" THEN S0.sig ELSE S1.sig, !.rv = IF S1.sig = "ok" THEN S0.rv ELSE S1.rv]
        vals == [i \in 1..Len(S2.heap[r].fs) |-> S2.heap[r].fs[i].v]
    IN DropAll(S2, vals)
 
